@@ -9,6 +9,7 @@ import CBV.Lemmas.C06Geo
 import CBV.Lemmas.C06Num
 import CBV.Lemmas.C06Fmt
 import Mathlib.Data.String.Basic
+import CBV.Gen.TC06
 
 set_option linter.unusedSectionVars false
 
